@@ -9,6 +9,7 @@ mod rng;
 mod t1;
 mod t15;
 mod t17;
+mod t19;
 mod t3;
 mod t4;
 mod t5;
